@@ -1,4 +1,6 @@
 import SJ.Proofs.FloatLiteral
+import SJ.Proofs.FloatUlp
+import SJ.Proofs.FloatZero
 /-!
 # C08 — default float parsing: exact for short literals, within a few ulp otherwise
 
@@ -112,5 +114,83 @@ example : partsOfLiteral exLit = .parts false 12345678 6 := by decide +kernel
 example : f32OfLiteral exLit = (floatOfLiteral exLit).map F64.toF32 :=
   c08_f32_once exLit (by intro n h; rw [show partsOfLiteral exLit = .parts false 12345678 6 by decide +kernel] at h; cases h)
     (by intro n h; rw [show partsOfLiteral exLit = .parts false 12345678 6 by decide +kernel] at h; cases h)
+
+
+/-! ## Overflow direction, underflow, accuracy — at the `f64_from_parts(positive, significand, exponent)`
+call the digit collection ends in (`significand < 2^64`, the exact value is `significand · 10^exponent`) -/
+
+/-- **C08, overflow direction (partial: stated at `f64_from_parts`).**
+    Rejected (`NumberOutOfRange`) only if `exponent ≥ 0` and the exact value is at least
+    `2^1024 − 2^970 − 2^972`, i.e. within 2 ulp (`ulp = 2^971`) of the rounding threshold; and every exact
+    value of at least `2^1024 + 2^972` (2 ulp above `2^1024`) is rejected.
+    NOT provable, because false on the pinned code: "every value ≥ 2^1024 is rejected" —
+    `179769313486231591e291 > 2^1024` is accepted as `f64::MAX` (see `c08_accepts_above_2pow1024`).
+    Missing for the literal-level statement: the lift through digit dropping after `u64` overflow
+    (the dropped tail only lowers the value, by < 2^-60 relative) and the `parse_exponent_overflow` path
+    (exponent digits beyond `i32`). -/
+theorem c08_overflow_direction_partial (positive : Bool) (s : Nat) (e : Int) (hs : s < 2 ^ 64) :
+    (f64FromParts positive s e = none →
+        0 ≤ e ∧ 2 ^ 1024 - 2 ^ 970 - 2 ^ 972 ≤ s * 10 ^ e.natAbs) ∧
+    (0 ≤ e → 2 ^ 1024 + 2 ^ 972 ≤ s * 10 ^ e.natAbs → f64FromParts positive s e = none) :=
+  f64FromParts_overflow_direction positive s e hs
+
+/-- the pinned code accepts a literal above `2^1024` (kernel-evaluated on the exact-IEEE model; the
+    correspondence run confirms the same bits on the real crate) -/
+theorem c08_accepts_above_2pow1024 :
+    2 ^ 1024 < 179769313486231591 * 10 ^ 291 ∧
+    f64FromParts true 179769313486231591 291 = some 0x7fefffffffffffff := by decide +kernel
+
+example : f64FromParts true 17976931348623159 292 = none := by decide +kernel
+example : f64FromParts true 1 309 = none := by decide +kernel
+
+/-- **C08, zero significand.** `±0` whatever the exponent (`0e400`, `-0.000e-999`). -/
+theorem c08_zero_significand (positive : Bool) (e : Int) :
+    f64FromParts positive 0 e = some (F64.zero (!positive)) :=
+  f64FromParts_zero positive e
+
+/-- **C08, underflow (partial).** For `exponent < -616` every `u64` significand gives `±0`: after two
+    `f /= 1e308` rounds the accumulator is exactly zero and the loop stops.
+    Missing: the band between `10^-598` and the subnormal limit `2^-1075`, where "below half the least
+    subnormal ⇒ ±0" needs the error analysis of the `1e308` stepping; the exponent-overflow path
+    (`1e-99999999999`) returns `±0` by construction (`parseExponentOverflow`). -/
+theorem c08_underflow_zero_partial (positive : Bool) (s : Nat) (e : Int) (hs : s < 2 ^ 64)
+    (he : e < -616) : f64FromParts positive s e = some (F64.zero (!positive)) :=
+  f64FromParts_far_underflow positive s e hs he
+
+example : f64FromParts false 18446744073709551615 (-617) = some 0x8000000000000000 := by decide +kernel
+example (z p : Bool) : parseExponentOverflow p z false = some (F64.zero (!p)) := by
+  cases z <;> cases p <;> rfl
+
+/-- **C08, 5 ulp (partial).** For a table exponent (`|exponent| ≤ 308`) and — for divisions — an exact
+    value of at least `2^-1021` (so that the quotient is a normal number), an accepted result is within
+    5 ulp of the exact value `significand · 10^exponent` (the proof gives `4·2^-53` relative, i.e. < 4 ulp):
+    `significand as f64`, the table entry and the one operation each contribute `2^-53`.
+    Missing: exponents below `-308` (the `f /= 1e308` stepping, up to three more roundings), subnormal
+    results (absolute instead of relative error), and the lift to literals whose digits beyond `u64` are
+    dropped (< `2^-60` relative). Those cases are covered by the exact-rational oracle sweep only. -/
+theorem c08_within_5ulp_partial (positive : Bool) (s : Nat) (e : Int) (r : UInt64) (hs1 : 1 ≤ s)
+    (hs : s < 2 ^ 64) (he1 : -308 ≤ e) (he2 : e ≤ 308)
+    (hnorm : e < 0 → 10 ^ e.natAbs ≤ s * 2 ^ 1021)
+    (h : f64FromParts positive s e = some r) :
+    withinUlps 5 (!positive) (scale10 s e).1 (scale10 s e).2 r = true := by
+  by_cases hpos : e ≥ 0
+  · have hsc : scale10 s e = (s * 10 ^ e.natAbs, 1) := by
+      unfold scale10; rw [if_pos hpos]
+      have : e.toNat = e.natAbs := by omega
+      rw [this]
+    rw [hsc]
+    exact mul_within5 positive s e r hs1 hs hpos he2 h
+  · have hsc : scale10 s e = (s, 10 ^ e.natAbs) := by
+      unfold scale10; rw [if_neg hpos]
+      have : (-e).toNat = e.natAbs := by omega
+      rw [this]
+    rw [hsc]
+    exact div_within5 positive s e r hs1 hs he1 (by omega) (hnorm (by omega)) h
+
+/-- `12345678901234567890e-300` (20 digits, division by `1e300`): hypotheses met, result within 5 ulp -/
+example : (10 : Nat) ^ 300 ≤ 12345678901234567890 * 2 ^ 1021 := by decide +kernel
+example : ∃ r, f64FromParts true 12345678901234567890 (-300) = some r ∧
+    withinUlps 5 false 12345678901234567890 (10 ^ 300) r = true :=
+  ⟨0x059caf4b164e4802, by decide +kernel⟩
 
 end SJ.Props.C08
